@@ -74,6 +74,24 @@ Definition import_spec (path : str) (d : importdef) : str :=
 Definition cgo_name_set (t : table) : bool :=
   match alookup s_C t with Some d => nonempty (id_name d) | None => false end.
 
+(* A preamble block in RAW comment form (the test of Comment.render, see [comment_text]: the
+   text starts with `//` or `/*` and is written verbatim) loses ALL its trailing newlines
+   before it is rendered: strings.TrimRight(c, "\n").  Other blocks are left as they are.
+   [trim_right_nl] is linear (one pass, no [rev]). *)
+Definition is_raw_comment (s : str) : bool := has_prefix (S "//") s || has_prefix (S "/*") s.
+
+Fixpoint trim_right_nl (s : str) : str :=
+  match s with
+  | [] => []
+  | c :: r => match trim_right_nl r with
+              | [] => if beq c x0a then [] else [c]
+              | r' => c :: r'
+              end
+  end.
+
+Definition trim_raw_preamble (s : str) : str :=
+  if is_raw_comment s then trim_right_nl s else s.
+
 Definition render_imports (t : table) (cgo : list str) : str :=
   let separate := (cgo_name_set t || nonempty_list cgo) && nonempty_list cgo in
   let filtered := filter (fun e => negb (str_eqb (fst e) s_C && separate)) t in
@@ -86,7 +104,7 @@ Definition render_imports (t : table) (cgo : list str) : str :=
      S ")" ++ [x0a; x0a]
    end) ++
   (if separate
-   then concat_str (map (fun c => comment_text c ++ [x0a]) cgo) ++ S "import " ++ [c_dq] ++ S "C" ++ [c_dq] ++ [x0a; x0a]
+   then concat_str (map (fun c => comment_text (trim_raw_preamble c) ++ [x0a]) cgo) ++ S "import " ++ [c_dq] ++ S "C" ++ [c_dq] ++ [x0a; x0a]
    else []).
 
 (* ---- File.Render (jen.go:34-94): the text handed to the formatter ---- *)
